@@ -4,7 +4,8 @@
 def setup(register, COMMON_TB):
     register(
         "C09", coq="C09", pkg="./internal/framework/status/", test="TestVerifC09",
-        extra=[dict(pkg="./internal/framework/runnables/", test="TestVerifC09Wire")],
+        extra=[dict(pkg="./internal/framework/runnables/", test="TestVerifC09Wire"),
+               dict(pkg="./internal/mode/static/", test="TestVerifC09Handler")],
         rule="sequential schedules (size ramps with the index) and concurrent schedules (2-3 submitter goroutines racing one "
              "Enable, randomly delayed client writes); non-trivial = has an Enable that flushed at least one saved request "
              "and at least 4 invocations; distinct = distinct (schedule, observed log). "
@@ -16,7 +17,7 @@ def setup(register, COMMON_TB):
              "function whose call defines it, and every other use of a selector .Enable in the file - and synthetic chains over "
              "the real types (every nesting of Leader/LeaderOrNonLeader up to depth 3 over EnableAfterBecameLeader, CronJob, "
              "*events.EventLoop, manager.RunnableFunc, then random nestings of depth 4-9) that exercise needs_leader/start_invokes; "
-             "non-trivial there = the manager.go case and synthetic chains of at least 3 elements",
+             "non-trivial there = the manager.go case and synthetic chains of at least 3 elements Third part (TestVerifC09Handler, evaluated by C09/HandlerCheck.v): the real event handler in front of the real LeaderAwareGroupUpdater over generated states (second Gateway of the class, NGF policies) and 0-3 follow-up batches (events for the Service in front of NGF, endpoint changes, an unrelated grant) - as a non-leader, then elected: nothing written before the election, and afterwards the statuses on the objects equal those of a replica that was leader from the start",
         trusted_base=COMMON_TB + [
             "modelled, not verified: sync.Mutex makes UpdateGroup/Enable atomic; the controller-runtime fake client stands for the API server",
             "modelled, not verified (coq/C09/Wire.v mstep): controller-runtime v0.20.1 starts the LeaderElection runnable group only "
